@@ -324,7 +324,13 @@ def build_loss(cfg):
     if L == "NormalLoss": kw["sigma"] = cfg["hyper"]
     if L == "GammaLoss": kw["shape"] = cfg["hyper"]
     if L == "NegBinomLoss": kw["k"] = cfg["hyper"]
-    return cls(theta0, m, list(cfg["x0"]), np.float64(t[0]), t[1:], y, **kw)
+    if len(cfg["times"]) % 2:
+        return cls(theta0, m, list(cfg["x0"]), np.float64(t[0]), t[1:], y, **kw)
+    # the caller's own float array, reused for something else once the loss object exists: the fit is about the values given
+    buf = np.array(cfg["x0"], dtype=float)
+    obj = cls(theta0, m, buf, np.float64(t[0]), t[1:], y, **kw)
+    buf[:] = buf[::-1] * 3.0 + 1.0
+    return obj
 
 
 TOL_COST = 1e-9        # slack on pygom's own cost: cost(result) <= cost(start) + TOL_COST*(1+|cost(start)|)
